@@ -1311,6 +1311,13 @@ func generate(rt *rapid.T, m *machine, server bool, s sizes) {
 			if !(w > 0 && h > 0) {
 				t.Skip()
 			}
+			// At high latitudes the polygon of the circle (external geojson module)
+			// reaches far beyond [-180,180]: points placed in the corners of that box
+			// would not be geographic coordinates, and the property does not speak of
+			// such objects (the index box ends at 180 while the haversine test wraps).
+			if b.Min.X-0.03*w < -180 || b.Max.X+0.03*w > 180 || b.Min.Y-0.03*h < -90 || b.Max.Y+0.03*h > 90 {
+				t.Skip()
+			}
 			f := 0.03
 			corners := [][2]float64{{b.Min.X + f*w, b.Min.Y + f*h}, {b.Max.X - f*w, b.Min.Y + f*h}, {b.Min.X + f*w, b.Max.Y - f*h}, {b.Max.X - f*w, b.Max.Y - f*h}}
 			n := rapid.IntRange(1, 4).Draw(t, "ncorners")
